@@ -780,7 +780,7 @@ class SP(Robot):
         for i in range(6):
             wrench_local_frame += fsr.makeWrench(fsr.globalToLocal(self.getBottomT(), 
                     self.getActuatorLoc(i, 't')), self._act_shaft_mass, self.grav, self.getBottomT())
-        tau = self.staticForcesBody(wrench.copy().changeFrame(self.getTopT()), protect = protect)
+        tau = self.staticForcesBody(wrench.copy(), protect = protect)
         for i in range(6):
             wrench_local_frame += fsr.makeWrench(fsr.globalToLocal(self.getBottomT(),
                      self.getActuatorLoc(i, 'b')), self._act_motor_mass, self.grav, self.getBottomT())
